@@ -17,6 +17,17 @@ Alphabet (every case is a complete configuration; inside it every non-origin gri
              every off-axis cell (no coordinate at the origin index) against 2-d quadrature of the implied joint density
              d2F/du1du2 (U_1(x_1), U_2(x_2)) nu_1(x_1) nu_2(x_2), the mixed derivative of the Clayton formula written here.
 
+  history    (both tiers) histories on ONE grid object: use - refine() - use again, up to 3 refinements in 1-d (every model
+             x grid constructor of the tier, a chain built through all six methods at every step), 2 in 2-d and 1 in 3-d
+             (copula models x {fixed n = 3, uniform h = 0.2, credit with a different axis per coordinate}, both methods);
+             and through the real CouplingMarkovChain / CouplingProcessLevyCopula.next_level (real Product and path
+             managers), whose fine_process at level l is a chain the library built on the refined, previously used grid:
+             representative models x grid constructors x every sampling method x 2 levels. At every step the complete
+             per-configuration oracle below runs on the re-used object (keys end in :used-grid-refined or
+             :next_level:<method>), and axes, h, origin index, intensity and per-state rates are compared with a chain
+             on a freshly constructed grid refined as often before its first use (catches state cached on the grid
+             object that refine() does not invalidate).
+
 Observation points
   process.intensity_of_jumps (every method); samplingfactory.compute_intensity_of_jumps(process.model, grid) with the
   arguments of model.mass recorded (the blocks whose masses are added); samplingfactory.create_q_vector(measure, grid)
@@ -153,6 +164,36 @@ def cases(tier):
             for exp in exps:
                 for g in _copula_grids(tier, d):
                     out.append({"sub": "copula", "model": spec, "exp": exp, "grid": dict(g, refine=k)})
+    # ---- histories on one grid object (use, refine, use again), directly and through the couplings' next_level
+    hist_models = models  # direct: every model of the tier
+    for g in grids:
+        for m in hist_models:
+            out.append({"sub": "history1d", "via": "direct", "model": m, "grid": dict(g, refine=0), "depth": 3})
+    rep = _representative_models(models) if not thorough else A.model_specs("quick")
+    cgrids = [g for g in A.grid_specs("quick", 1) if not (g["kind"] == "uniform" and g["h"] == 0.2)] if thorough else [
+        {"kind": "uniform", "h": 0.1, "p": 0.99999}, {"kind": "fixed", "h": 0.1, "n": 5},
+        {"kind": "geometric", "h": 0.1, "n_side": 3, "p": 0.99999}, {"kind": "probability", "h": 0.1, "pmin": 0.2},
+        {"kind": "credit", "h": 0.1, "a_frac": 0.5, "symmetric": True}]
+    for g in cgrids:
+        for m in rep:
+            for meth in METHODS_1D:
+                out.append({"sub": "history1d", "via": "next_level", "method": meth, "model": m, "grid": dict(g, refine=0), "depth": 2})
+    hgrids = [{"kind": "fixed", "h": 0.1, "n": 3}, {"kind": "uniform", "h": 0.2, "p": 0.99999},
+              {"kind": "credit", "h": 0.1, "a_frac": [0.5, 0.3, 0.4], "symmetric": False}]
+    for spec in cm:
+        d = len(spec["margins"])
+        for g in hgrids:
+            g = dict(g, refine=0)
+            if g["kind"] == "credit":
+                g["a_frac"] = g["a_frac"][:d]
+            if d == 3 and g["kind"] != "fixed":
+                continue
+            depth = 2 if d == 2 else 1
+            out.append({"sub": "historynd", "via": "direct", "model": spec, "exp": False, "grid": g, "depth": depth})
+            for meth in METHODS_ND:
+                if d == 3 and not thorough:
+                    continue
+                out.append({"sub": "historynd", "via": "next_level", "method": meth, "model": spec, "exp": False, "grid": g, "depth": depth})
     # ---- joint density (2-d Clayton)
     clay2 = [s for s in cm if len(s["margins"]) == 2 and s["copula"]["kind"] == "clayton"]
     if not thorough:
@@ -167,6 +208,19 @@ def cases(tier):
                 # one case per row of cells (first coordinate) so that the work is spread evenly
                 for row in range(npts):
                     out.append({"sub": "density", "model": spec, "grid": grid, "row": row})
+    return out
+
+
+def _representative_models(models):
+    """one model per family / activity class for the next_level histories of the quick tier"""
+    want = [("hem", False, None), ("hem", True, None), ("merton", False, None), ("vg", False, None),
+            ("cgmy", False, 0.5), ("cgmy", False, 1.2), ("cgmy", True, 1.5)]
+    out = []
+    for fam, exp, y in want:
+        for m in models:
+            if m["family"] == fam and bool(m.get("exp")) == exp and (y is None or m["params"].get("y") == y):
+                out.append(m)
+                break
     return out
 
 
@@ -431,10 +485,6 @@ def _central_cell_is_h(sh, tag, grid, centrals):
 
 
 def _chain1d(sh, case):
-    from rpylib.distribution import samplingfactory as SF
-    from rpylib.distribution.sampling import SamplingMethod
-    from rpylib.process.markovchain.markovchain import MarkovChainProcess
-
     gk = case["grid"]["kind"]
     fam = _family_class(case["model"])
     tag = f"{gk}:{fam}"
@@ -444,6 +494,22 @@ def _chain1d(sh, case):
     except A.OutsideAlphabet:
         sh.count("outside-alphabet-grid")
         return
+    _oracle_1d(sh, case, model, grid, tag)
+
+
+def _oracle_1d(sh, case, model, grid, tag, given=None, given_vectors=None, refine=None):
+    """the complete per-configuration oracle on `grid` as it is now. given=None: a chain is built on the grid through every
+    method of METHODS_1D; given={method: process}: processes the library built itself on that grid object (the
+    fine_process of a coupling after next_level) are observed instead, given_vectors the probability vectors recorded
+    while they were built. Returns a summary (axis, h, origin index, intensity, q-vector) or None."""
+    from rpylib.distribution import samplingfactory as SF
+    from rpylib.distribution.sampling import SamplingMethod
+    from rpylib.process.markovchain.markovchain import MarkovChainProcess
+
+    gk = case["grid"]["kind"]
+    fam = _family_class(case["model"])
+    history = given is not None or refine is not None
+    refine = case["grid"].get("refine", 0) if refine is None else refine
     nu0 = model.levy_triplet.nu
     axis = [float(x) for x in grid.axes[0]]
     o = int(grid.origin_coordinate.value)
@@ -458,7 +524,7 @@ def _chain1d(sh, case):
     _central_cell_is_h(sh, tag, grid, [(bounds[o], bounds[o + 1])])
     sh.cls(f"grid:{gk}")
     sh.cls(f"model:{fam}{':exp' if case['model'].get('exp') else ''}")
-    sh.cls(f"refine:{case['grid'].get('refine', 0)}")
+    sh.cls(f"refine:{refine}")
     sh.cls(f"measure:{_activity_class(nu0)}")
     sh.cls("axis:symmetric" if all(abs(axis[i] + axis[n - 1 - i]) < 1e-15 for i in range(n)) else "axis:asymmetric")
 
@@ -490,9 +556,9 @@ def _chain1d(sh, case):
     mshift = [1.5 * btol[j] * dens_at_bound[j] for j in range(n + 1)]
 
     # ---- build a process per method
-    procs = {}
-    captured = {}
-    for meth in METHODS_1D:
+    procs = dict(given or {})
+    captured = dict(given_vectors or {})
+    for meth in (METHODS_1D if given is None else []):
         with _captured(QVEC_METHODS.get(meth)) as cap:
             try:
                 procs[meth] = MarkovChainProcess(model=model, method=SamplingMethod[meth], grid=grid)
@@ -505,12 +571,12 @@ def _chain1d(sh, case):
         elif meth in QVEC_METHODS:
             sh.count("probability-vector-not-observable")
     if not procs:
-        return
+        return None
     p0 = next(iter(procs.values()))
     lam = float(p0.intensity_of_jumps)
     if not (math.isfinite(lam) and lam > 0):
         sh.violation(f"C01:intensity:process:not-positive-finite:{tag}", f"intensity_of_jumps = {lam!r}", None)
-        return
+        return None
     sh.outcome((float(lam).hex(), n))
 
     # ---- routes: per-state rate as the library sees it, and the cell it integrates over
@@ -722,6 +788,10 @@ def _chain1d(sh, case):
     sh.count("states", len(idx))
     sh.count("configurations")
     # determinism self-check on 1 case in 8: everything rebuilt from the case dict, observations compared bit for bit
+    summary = {"axis": [x.hex() for x in axis], "h": float(grid.h).hex(), "origin": o, "intensity": lam,
+               "q": [routes["q-vector"][k] for k in idx] if "q-vector" in routes else None}
+    if history:
+        return summary
     if int(core.digest(case), 16) % 8 == 0 and "q-vector" in routes:
         model2 = A.make_model(case["model"])
         grid2 = A.make_grid(case["grid"], model2, 1)
@@ -736,6 +806,7 @@ def _chain1d(sh, case):
     if case["grid"].get("refine", 0) == 0 and n <= 7:
         sh.sample({"case": case, "axis": axis, "reference_bounds": bounds, "intensity": lam,
                    "rates": {str(k): routes.get("q-vector", {}).get(k) for k in idx}, "quadrature": {str(k): quad[k] for k in idx}})
+    return summary
 
 
 # ----------------------------------------------------------------------------------------------------------------------
@@ -743,12 +814,12 @@ def _chain1d(sh, case):
 # ----------------------------------------------------------------------------------------------------------------------
 
 class _CopulaCtx:
-    def __init__(self, sh, case):
+    def __init__(self, sh, case, model=None, grid=None):
         self.case = case
         spec = case["model"]
         self.d = len(spec["margins"])
-        self.model = A.make_copula_model(spec, exp=case.get("exp", False))
-        self.grid = A.make_grid(case["grid"], self.model, self.d)
+        self.model = model if model is not None else A.make_copula_model(spec, exp=case.get("exp", False))
+        self.grid = grid if grid is not None else A.make_grid(case["grid"], self.model, self.d)
         self.nus = [m.levy_triplet.nu for m in self.model.models]
         self.copula = self.model.copula
         self.axes = [[float(x) for x in ax] for ax in self.grid.axes]
@@ -779,10 +850,6 @@ class _CopulaCtx:
 
 
 def _copula(sh, case):
-    from rpylib.distribution import samplingfactory as SF
-    from rpylib.distribution.sampling import SamplingMethod
-    from rpylib.process.markovchain.markovchainlevycopula import MarkovChainLevyCopula
-
     gk = case["grid"]["kind"]
     ck = case["model"]["copula"]["kind"]
     d = len(case["model"]["margins"])
@@ -792,6 +859,20 @@ def _copula(sh, case):
     except A.OutsideAlphabet:
         sh.count("outside-alphabet-grid")
         return
+    _oracle_nd(sh, case, ctx, tag)
+
+
+def _oracle_nd(sh, case, ctx, tag, given=None, refine=None):
+    """the complete per-configuration oracle on ctx.grid as it is now (see _oracle_1d for `given`); returns a summary"""
+    from rpylib.distribution import samplingfactory as SF
+    from rpylib.distribution.sampling import SamplingMethod
+    from rpylib.process.markovchain.markovchainlevycopula import MarkovChainLevyCopula
+
+    gk = case["grid"]["kind"]
+    ck = case["model"]["copula"]["kind"]
+    d = len(case["model"]["margins"])
+    history = given is not None or refine is not None
+    refine = case["grid"].get("refine", 0) if refine is None else refine
     if not ctx.ok:
         sh.count("malformed-grid-skipped")
         sh.note(f"grid not strictly increasing with 0 at the origin index (C13's business): {tag}")
@@ -800,7 +881,7 @@ def _copula(sh, case):
     _central_cell_is_h(sh, tag, grid, [(bs[o], bs[o + 1]) for bs, o in zip(ctx.bounds, ctx.orig)])
     sh.cls(f"grid:{gk}:d={d}")
     sh.cls(f"copula:{ck}:d={d}")
-    sh.cls(f"refine:{case['grid'].get('refine', 0)}:d={d}")
+    sh.cls(f"refine:{refine}:d={d}")
     sh.cls("margins:" + "+".join(case["model"]["margins"]) + (":exp" if case.get("exp") else ""))
     sh.cls("axes:identical" if all(ax == ctx.axes[0] for ax in ctx.axes) else "axes:different-per-coordinate")
 
@@ -824,9 +905,9 @@ def _copula(sh, case):
                              {"margin": mname, "x": b, "closed_form": got, "quadrature": v})
 
     # ---- processes
-    procs = {}
+    procs = dict(given or {})
     with _no_vol_adjustment_pool():
-        for meth in METHODS_ND:
+        for meth in (METHODS_ND if given is None else []):
             try:
                 procs[meth] = MarkovChainLevyCopula(levy_copula_model=model, grid=grid, method=SamplingMethod[meth])
                 sh.cls(f"method:{d}d:{meth}")
@@ -1012,6 +1093,10 @@ def _copula(sh, case):
         sh.nontriv()
     sh.count("states", len(states))
     sh.count("configurations")
+    summary = {"axes": [[x.hex() for x in ax] for ax in ctx.axes], "h": float(grid.h).hex(), "origin": list(ctx.orig), "intensity": lam,
+               "mass": [routes["model.mass"][idx] for idx in states] if "model.mass" in routes else None}
+    if history:
+        return summary
     if int(core.digest(case), 16) % 8 == 0 and "model.mass" in routes and len(states) <= 1000:
         ctx2 = _CopulaCtx(sh, case)
         with _no_vol_adjustment_pool():
@@ -1023,6 +1108,190 @@ def _copula(sh, case):
             sh.violation("NONDETERMINISM", f"rebuilding {tag} from its case dict gave different axes / intensity / cell masses", None)
     if len(states) <= 8:
         sh.sample({"case": case, "axes": ctx.axes, "intensity": lam, "reference_masses": {str(k): v for k, v in ref.items()}})
+    return summary
+
+
+# ----------------------------------------------------------------------------------------------------------------------
+# histories on ONE grid object: use (build chains), refine, use again - directly and through the couplings' next_level
+# ----------------------------------------------------------------------------------------------------------------------
+
+def _make_product():
+    from rpylib.product.payoff import Forward
+    from rpylib.product.product import Product
+    from rpylib.product.underlying import Spot
+
+    return Product(payoff_underlying=Spot(), payoff=Forward(strike=0.0), maturity=1.0)
+
+
+def _path_manager(fine_process):
+    from rpylib.montecarlo.path import MLMCPath
+
+    return MLMCPath(deterministic_path=fine_process.deterministic_path, activate_spot_underlying=False)
+
+
+def _compare_with_fresh(sh, tag, level, reused, fresh):
+    """the re-used grid object after `level` refinements against a grid constructed afresh and refined `level` times before
+    its first use: same axes, h and origin index bit for bit; same intensity and per-state rates"""
+    if reused is None or fresh is None:
+        sh.count("history-comparison-skipped")
+        return
+    for field in ("axes", "axis", "h", "origin"):
+        if field in reused:
+            sh.count("evaluations")
+            if reused[field] != fresh[field]:
+                sh.violation(f"C01:history:grid:{field}-differs-from-a-fresh-grid-refined-as-often:{tag}",
+                             f"after {level} refinement(s) of a used grid: {field} differs from the fresh grid's", None)
+                return
+    lam_r, lam_f = reused["intensity"], fresh["intensity"]
+    sh.count("evaluations")
+    if not _close_same(lam_r, lam_f, lam_f):
+        sh.violation(f"C01:history:intensity:differs-from-a-chain-on-a-fresh-grid-refined-as-often:{tag}",
+                     f"after {level} refinement(s) of a used grid: intensity_of_jumps {lam_r!r}, on a fresh grid refined {level} time(s) {lam_f!r}",
+                     {"level": level, "reused": lam_r, "fresh": lam_f})
+    for field in ("q", "mass"):
+        if reused.get(field) is not None and fresh.get(field) is not None:
+            sh.count("evaluations")
+            if len(reused[field]) != len(fresh[field]) or any(
+                    not core.close(x, y, rtol=1e-12, atol=1e-15 * lam_f) for x, y in zip(reused[field], fresh[field])):
+                sh.violation(f"C01:history:rates:differ-from-a-chain-on-a-fresh-grid-refined-as-often:{tag}",
+                             f"after {level} refinement(s) of a used grid: per-state rates differ from those on a fresh grid", None)
+
+
+def _history1d(sh, case):
+    from rpylib.distribution.sampling import SamplingMethod
+    from rpylib.process.coupling.couplingmarkovchain import CouplingMarkovChain
+
+    gk = case["grid"]["kind"]
+    fam = _family_class(case["model"])
+    via = case["via"]
+    depth = case["depth"]
+    model = A.make_model(case["model"])
+    g0 = dict(case["grid"], refine=0)
+    try:
+        grid = A.make_grid(g0, model, 1)
+    except A.OutsideAlphabet:
+        sh.count("outside-alphabet-grid")
+        return
+    sh.cls(f"history:1d:{via}")
+    if via == "direct":
+        tag = f"{gk}:{fam}:used-grid-refined"
+        for level in range(depth + 1):
+            if level:
+                grid.refine()
+            # the oracle builds a chain on `grid` through every method: that is the "use" before the next refinement
+            reused = _oracle_1d(sh, case, model, grid, tag if level else f"{gk}:{fam}", refine=level)
+            if level:
+                fresh_model = A.make_model(case["model"])
+                fresh_grid = A.make_grid(dict(g0, refine=level), fresh_model, 1)
+                fresh = _light_summary_1d(fresh_model, fresh_grid)
+                _compare_with_fresh(sh, tag, level, reused, fresh)
+        sh.count("histories")
+        return
+    # through the real coupling: fine_process at level l is a chain built by next_level on the refined grid object
+    meth = case["method"]
+    tag = f"{gk}:{fam}:next_level:{meth}"
+    product = _make_product()
+    with _captured(QVEC_METHODS.get(meth)) as cap:
+        try:
+            cp = CouplingMarkovChain(model=model, method=SamplingMethod[meth], grid=grid)
+            product.update(cp.fine_process.process_representation)
+            cp.initialisation(product)
+            pms = [_path_manager(cp.fine_process)]
+        except Exception as e:  # noqa
+            sh.violation(f"C01:history:CouplingMarkovChain:constructor-raises-{type(e).__name__}:{tag}", f"{e!r}"[:300], None)
+            return
+        for level in range(1, depth + 1):
+            if cap is not None:
+                cap.vec = None
+            try:
+                cp.next_level(mc_paths=1, path_managers=pms, product=product)
+            except Exception as e:  # noqa
+                sh.violation(f"C01:history:CouplingMarkovChain:next_level-raises-{type(e).__name__}:{tag}", f"level {level}: {e!r}"[:300], None)
+                return
+            vecs = {meth: cap.vec} if (cap is not None and cap.vec is not None) else {}
+            reused = _oracle_1d(sh, case, model, cp.grid, tag, given={meth: cp.fine_process}, given_vectors=vecs, refine=level)
+            fresh_model = A.make_model(case["model"])
+            fresh_grid = A.make_grid(dict(g0, refine=level), fresh_model, 1)
+            _compare_with_fresh(sh, tag, level, reused, _light_summary_1d(fresh_model, fresh_grid))
+    sh.count("histories")
+
+
+def _light_summary_1d(model, grid):
+    from rpylib.distribution import samplingfactory as SF
+    from rpylib.distribution.sampling import SamplingMethod
+    from rpylib.process.markovchain.markovchain import MarkovChainProcess
+
+    p = MarkovChainProcess(model=model, method=SamplingMethod.BINARYSEARCHTREE, grid=grid)
+    o = int(grid.origin_coordinate.value)
+    q = np.asarray(SF.create_q_vector(p.model.levy_triplet.nu, grid), dtype=float)
+    return {"axis": [float(x).hex() for x in grid.axes[0]], "h": float(grid.h).hex(), "origin": o,
+            "intensity": float(p.intensity_of_jumps), "q": [float(q[k]) for k in range(len(q)) if k != o]}
+
+
+def _light_summary_nd(sh, case, level):
+    from rpylib.distribution.sampling import SamplingMethod
+    from rpylib.process.markovchain.markovchainlevycopula import MarkovChainLevyCopula
+
+    ctx = _CopulaCtx(sh, dict(case, grid=dict(case["grid"], refine=level)))
+    if not ctx.ok:
+        return None
+    with _no_vol_adjustment_pool():
+        p = MarkovChainLevyCopula(levy_copula_model=ctx.model, grid=ctx.grid, method=SamplingMethod.INVERSION)
+    return {"axes": [[x.hex() for x in ax] for ax in ctx.axes], "h": float(ctx.grid.h).hex(), "origin": list(ctx.orig),
+            "intensity": float(p.intensity_of_jumps), "mass": [float(p.model.mass(*ctx.cell(idx))) for idx in ctx.states()]}
+
+
+def _historynd(sh, case):
+    from rpylib.distribution.sampling import SamplingMethod
+    from rpylib.process.coupling.couplinglevycopula import CouplingProcessLevyCopula
+
+    gk = case["grid"]["kind"]
+    ck = case["model"]["copula"]["kind"]
+    d = len(case["model"]["margins"])
+    via = case["via"]
+    depth = case["depth"]
+    model = A.make_copula_model(case["model"], exp=case.get("exp", False))
+    g0 = dict(case["grid"], refine=0)
+    try:
+        grid = A.make_grid(g0, model, d)
+    except A.OutsideAlphabet:
+        sh.count("outside-alphabet-grid")
+        return
+    sh.cls(f"history:{d}d:{via}")
+    base = f"{gk}:d={d}:{ck}"
+    if via == "direct":
+        tag = f"{base}:used-grid-refined"
+        for level in range(depth + 1):
+            if level:
+                grid.refine()
+            ctx = _CopulaCtx(sh, case, model=model, grid=grid)
+            reused = _oracle_nd(sh, case, ctx, tag if level else base, refine=level)
+            if level:
+                _compare_with_fresh(sh, tag, level, reused, _light_summary_nd(sh, case, level))
+        sh.count("histories")
+        return
+    meth = case["method"]
+    tag = f"{base}:next_level:{meth}"
+    product = _make_product()
+    with _no_vol_adjustment_pool():
+        try:
+            cp = CouplingProcessLevyCopula(levy_copula_model=model, grid=grid, method=SamplingMethod[meth])
+            product.update(cp.fine_process.process_representation)
+            cp.initialisation(product)
+            pms = [_path_manager(cp.fine_process)]
+        except Exception as e:  # noqa
+            sh.violation(f"C01:history:CouplingProcessLevyCopula:constructor-raises-{type(e).__name__}:{tag}", f"{e!r}"[:300], None)
+            return
+        for level in range(1, depth + 1):
+            try:
+                cp.next_level(mc_paths=1, path_managers=pms, product=product)
+            except Exception as e:  # noqa
+                sh.violation(f"C01:history:CouplingProcessLevyCopula:next_level-raises-{type(e).__name__}:{tag}", f"level {level}: {e!r}"[:300], None)
+                return
+            ctx = _CopulaCtx(sh, case, model=model, grid=cp.grid)
+            reused = _oracle_nd(sh, case, ctx, tag, given={meth: cp.fine_process}, refine=level)
+            _compare_with_fresh(sh, tag, level, reused, _light_summary_nd(sh, case, level))
+    sh.count("histories")
 
 
 # ----------------------------------------------------------------------------------------------------------------------
@@ -1127,7 +1396,8 @@ REQUIRED_CLASSES = (
     + [f"grid:{g}:d={d}" for d in (2, 3) for g in ("uniform", "fixed", "credit")]
     + [f"refine:{k}" for k in range(4)] + [f"refine:{k}:d={d}" for d in (2, 3) for k in range(2)]
     + ["measure:finite-activity", "measure:infinite-activity-finite-variation", "measure:infinite-variation",
-       "axes:identical", "axes:different-per-coordinate", "density:same-signs:fixed", "density:opposite-signs:fixed"]
+       "axes:identical", "axes:different-per-coordinate", "density:same-signs:fixed", "density:opposite-signs:fixed",
+       "history:1d:direct", "history:1d:next_level", "history:2d:direct", "history:2d:next_level", "history:3d:direct"]
 )
 
 
@@ -1144,4 +1414,5 @@ def check_case(sh, case):
     with warnings.catch_warnings():
         warnings.simplefilter("ignore")
         with np.errstate(all="ignore"):
-            {"chain1d": _chain1d, "copula": _copula, "density": _density}[case["sub"]](sh, case)
+            {"chain1d": _chain1d, "copula": _copula, "density": _density, "history1d": _history1d,
+             "historynd": _historynd}[case["sub"]](sh, case)
